@@ -32,6 +32,12 @@ inside `JSXTag.tagify`, `_walk_attrs_and_children`, `_lib_dependency` and `JSXTa
                                Props/SrcC20.lean), the JavaScript `jsWrap`, the `<script>` Tag with `scriptAttrs` whose children are
                                the body, react, react-dom and the collected nodes (`C20_script_shape`, `C20_collected_on_script`)
 
+  jsx.__new__ / __add__        `jsx(*args)` is the `jsx` string of the arguments joined by line breaks; `jsx + str` is a plain
+                               `str`, `jsx + jsx` a `jsx` — what the primitive `pyAddJ` of Py/PrimC20.lean *states* for a `jsx`
+                               left operand is what the source of `jsx.__add__` says
+  jsx_tag_create               returns the closure over `(name, allowedProps)`; calling it with `*kids, **kw` is `jsxInit`
+                               (`JSXTag(name, *args, allowedProps=allowedProps, **kwargs)`)
+
 Scope of the statements, made explicit by their hypotheses:
   * the walk: `walkOkNC20b` (Lemmas/SrcC20b.lean) — prop names once each and free of `_` (a name with `_`, put there behind the
     dict's back, is renamed by `copy.copy` and by the assignment of the walk), dict prop values without a key with `_` (the
@@ -1126,5 +1132,88 @@ theorem src_jsx_tagifyC20b (h : JSXTag_tagifyC20b_available = true)
         (fun v hv' => (hkid _ v hv').2)).trans ?_
       simp only [scriptObjC20b, jsWrap_partsC20b, jsWrapPartsC20b, walk_metas, List.singleton_append, List.cons_append,
         List.nil_append])
+
+/-! ### jsx.__new__, jsx.__add__, jsx_tag_create -/
+
+theorem pyJoinJ_strs_tupleC20b (sep : Str) (l : List Str) :
+    pyJoinJ (.str sep) (.tuple (l.map PVal.str)) = .ok (.str (joinStr sep l)) := by
+  simp [pyJoinJ, asStr, jsxText?, pyIterJ, pyIter, strsOfJ_strs]
+
+/-- `jsx(*args)` (`jsx.__new__` for `cls = jsx`) as the source has it: the `jsx` string whose text is the arguments joined by
+    line breaks -/
+theorem src_jsx_newC20b (h : jsx_newC20b_available = true) (G : Globals) (ss : List Str) :
+    jsx_newC20b G (.tuple (ss.map PVal.str)) = .ok (mkJsx (joinStr ['\n'] ss)) := by
+  first
+  | exact absurd h (by decide)
+  | (unfold jsx_newC20b
+     simp only [char10C20b, pyJoinJ_strs_tupleC20b, ok_bind, pure_eq_ok, pyJsxNewC20b, asStr_str])
+
+/-- `jsx.__add__(self, other)` as the source has it is what the primitive `pyAddJ` (Py/PrimC20.lean) states for a `jsx` left
+    operand: `jsx + str` is a plain `str`, `jsx + jsx` a `jsx` -/
+theorem src_jsx_addC20b (h : jsx_addC20b_available = true) (hn : jsx_newC20b_available = true) (G : Globals)
+    (add : PVal → PVal → PyM PVal) (a b : Str) :
+    jsx_addC20b G (mkJsx a) (.str b) = pyAddJ add (mkJsx a) (.str b)
+    ∧ jsx_addC20b G (mkJsx a) (mkJsx b) = pyAddJ add (mkJsx a) (mkJsx b) := by
+  first
+  | exact absurd h (by decide)
+  | skip
+  all_goals (
+    have hnew := src_jsx_newC20b hn G [a ++ b]
+    simp only [List.map_cons, List.map_nil, joinStr] at hnew
+    constructor
+    · unfold jsx_addC20b
+      simp [pyStrAddC20b, asStr_jsx, asStr_str, isInstanceJ, jsxText?, isInstance, builtinClasses, pyAddJ, mkJsx, fieldGet?, asStr]
+    · unfold jsx_addC20b
+      simp only [pyStrAddC20b, asStr_jsx, ok_bind, pure_eq_ok, truthy_bool]
+      have : isInstanceJ (mkJsx b) ["jsx"] = true := by simp [isInstanceJ, jsxText?, mkJsx, fieldGet?]
+      simp only [this, if_true, hnew, ok_bind]
+      simp [pyAddJ, jsxText?, mkJsx, fieldGet?])
+
+/-- the names of the parameters of `JSXTag.__init__` other than `*args` / `**kwargs`: a keyword of that name does not reach
+    `**kwargs` -/
+def jsxReservedC20b : List Str := [chars% "self", chars% "_name", chars% "allowedProps"]
+
+theorem kwFree_selfC20b (kw : List (Str × JVal)) (h : kwFreeC20b jsxReservedC20b kw = true) :
+    kwFreeC20b [chars% "self"] kw = true := by
+  rw [kwFreeC20b, List.all_eq_true] at h ⊢
+  intro kv hkv
+  have := h kv hkv
+  simp only [jsxReservedC20b, List.contains_cons, List.contains_nil, Bool.or_false, Bool.not_eq_true', Bool.or_eq_false_iff] at this ⊢
+  exact this.1
+
+/-- the function `jsx_tag_create(name, allowedProps)` returns, called with `*kids, **kw` — as the source has it = `jsxInit`
+    (`JSXTag(name, *args, allowedProps=allowedProps, **kwargs)`): the component, or NotImplementedError -/
+theorem src_jsx_create_tagC20b (h : jsx_create_tagC20b_available = true) (hI : JSXTag_initC20b_available = true)
+    (hA : JSXTagAttrDict_initC20b_available = true) (hu : JSXTagAttrDict_updateC20b_available = true)
+    (hm : JSXTagAttrDict_updateMapC20b_available = true) (hnn : JSX_normalize_attr_name_available = true)
+    (hT : TagList_init_available = true) (ht : tagchilds_to_tagnodes_available = true)
+    (hf : util_flatten_available = true) (hr : util_flatten_recurse_available = true) (hn : is_tag_node_available = true)
+    (G : Globals) (ι : Str → Option Int) (upper : Str → Str) (fuel : Nat)
+    (name : Str) (allowed : Option (List Str)) (kw : List (Str × JVal)) (kids : JNodes)
+    (hup : G.upperC20b (nameInitial name) = some (upper (nameInitial name)))
+    (hkw : kwFreeC20b jsxReservedC20b kw = true)
+    (hk : noJsxKidsC20b kids = true) :
+    jsx_create_tagC20b G (fuel + 6) (.str name) (embAllowedC20b allowed) (.tuple (embJNodes ι kids)) (embKwC20b ι kw)
+      = embRes (embJNode ι) (jsxInit upper name allowed kw kids) := by
+  first
+  | exact absurd h (by decide)
+  | skip
+  all_goals (
+    rw [jsx_create_tagC20b]
+    have hkw' := hkw
+    unfold jsxReservedC20b at hkw'
+    simp only [pyIter_tuple, ok_bind, pure_eq_ok, pyKwRest_embKwC20b ι kw _ hkw',
+      src_jsx_tag_initC20b hI hA hu hm hnn hT ht hf hr hn G ι upper fuel name allowed kw kids hup (kwFree_selfC20b kw hkw) hk])
+
+/-- `jsx_tag_create(name, allowedProps)` as the source has it: the closure over its two arguments (whose body is
+    `jsx_create_tagC20b`: `src_jsx_create_tagC20b`), named `name` -/
+theorem src_jsx_tag_createC20b (h : jsx_tag_createC20b_available = true) (G : Globals) (name : Str) (a : PVal) :
+    jsx_tag_createC20b G (.str name) a
+      = .ok (.obj "closure" [("fn", .str "jsx_tag_create.<inner>".toList), ("captured", .list [.str name, a]),
+          ("__name__", .str name)]) := by
+  first
+  | exact absurd h (by decide)
+  | (unfold jsx_tag_createC20b
+     simp [mkClosureC17, pySetFuncNameC20b, asStr_str, pySetAttr, fieldSet])
 
 end HtmlVerif.SrcTie
